@@ -118,7 +118,8 @@ class Gen:
                       "tryreserve", "shrinkto", "shrinktofit", "clear", "len", "capacity", "allocsize", "withcap",
                       "dropmap", "iter", "iterfold", "retain", "extractif", "intoiter", "intokeys", "intovalues", "fromiter",
                       "entry_replace", "entry_and_replace", "raw_replace", "raw_and_replace", "eref_or_insert", "eref_insert",
-                      "raw_or_insert", "raw_insert", "raw_remove", "rentry_or_insert", "rentry_insert", "rentry_remove"])
+                      "raw_or_insert", "raw_insert", "raw_remove", "rentry_or_insert", "rentry_insert", "rentry_remove",
+                      "raw_hash_insert", "raw_rename"])
         if force:
             c = force
         k = self.present() if r.random() < 0.5 and self.contents else self.anykey()
@@ -136,6 +137,18 @@ class Gen:
             self.contents[k] = (self.contents[k][0] if k in self.contents else s, v)
         elif c in ("raw_remove", "rentry_remove"):
             self.emit(f"{c} {k} {self.st()}"); self.contents.pop(k, None)
+        elif c == "raw_hash_insert":
+            # from_hash(hash of ANOTHER key hk, matcher on k): lawful use = k absent (Vacant whatever hk is) or hk == k
+            hk = k if (k in self.contents or r.random() < 0.3) else self.anykey()
+            s, v = self.st(), self.val(); self.emit(f"raw_hash_insert {hk} {k} {s} {v}")
+            self.contents[k] = (self.contents[k][0] if k in self.contents else s, v)
+        elif c == "raw_rename":
+            # from_key(k) -> replace_entry_with(None) -> Vacant -> insert(k2): k2 must not be stored (k2 == k allowed)
+            a = self.absent()
+            k2 = k if (a is None or r.random() < 0.25) else a
+            s, s2, v2 = self.st(), self.st(), self.val()
+            self.emit(f"raw_rename {k} {s} {k2} {s2} {v2}")
+            self.contents.pop(k, None); self.contents[k2] = (s2, v2)
         elif c in ("entry_replace", "entry_and_replace", "raw_replace", "raw_and_replace"):
             # replace_entry_with: Some(v) = overwrite in place (removed and put back), None = remove
             s, v = self.st(), self.val()
